@@ -195,6 +195,14 @@ EXPLICIT = [
     (["Struct", [["k", B], ["x", ["ProcessXor", ["this", "k"], ["CString", "utf8"]]]]], {}),
     (["NullTerminated", ["GreedyRange", ["name", "Int16ub"]], tag(b"\x00"), True, False, False], {}),
     (["Hex", ["name", "VarInt"]], {}), (["HexDump", ["Prefixed", B, ["name", "GreedyBytes"]]], {}),
+    # text codecs other than the usual ones: they signal malformed input with exception types of their own (UnicodeError, ValueError,
+    # LookupError for codecs that are not text encodings)
+    (["GreedyString", "punycode"], {}), (["PascalString", B, "idna"], {}), (["GreedyString", "utf_7"], {}), (["PascalString", ["name", "VarInt"], "unicode_escape"], {}),
+    (["GreedyString", "raw_unicode_escape"], {}), (["PascalString", B, "hex"], {}), (["GreedyString", "base64"], {}), (["PascalString", B, "cp037"], {}),
+    (["Struct", [["a", ["PascalString", B, "punycode"]], ["b", ["PascalString", B, "idna"]], ["c", ["GreedyString", "utf_16"]]]], {}),
+    # bit-level fields used directly on a byte stream (each byte read stands for one bit, whatever its value)
+    (["name", "Nibble"], {}), (["BitsInteger", 12, True, False], {}), (["Struct", [["a", ["name", "Bit"]], ["b", ["name", "Octet"]], ["c", ["BitsInteger", 16, False, True]]]], {}),
+    (["Array", 3, ["name", "Bit"]], {}),
     # values of the library's own result types (bytes / str subclasses, tuples, containers) flowing on into other constructs
     (["Struct", [["blob", ["Hex", ["Prefixed", B, ["name", "GreedyBytes"], False]]], ["x", ["RestreamData", ["this", "blob"], ["name", "Int16ub"]]]]], {}),
     (["Struct", [["blob", ["HexDump", ["Bytes", 2]]], ["x", ["RestreamData", ["this", "blob"], ["Struct", [["a", B], ["b", ["OneOf", B, [1, 2]]]]]]], ["t", B]]], {}),
